@@ -20,7 +20,7 @@ from . import common, mcommon
 ID = "C15"
 NEEDS_MODEL = False
 LEVEL = "exploration"
-N = {"quick": 480, "thorough": 9000}
+N = {"quick": 480, "thorough": 24000}
 TECHNIQUE = ("runtime monitoring: before/after deep-snapshot monitor on the real parsed objects, "
              "repeated and interleaved compilations in one interpreter, differential against a "
              "fresh process")
